@@ -30,12 +30,16 @@ pub fn eq_datetime(a: &Datetime, r: &RDatetime) -> bool {
     date_ok && time_ok && offset_ok
 }
 
-fn differential(s: &[u8]) {
+/// one call of the real parser, compared with the reference; returns the verdict
+fn differential(s: &[u8]) -> bool {
     let real = Datetime::from_str(as_str(s));
     let reference = v_date_time(s);
     match (&real, &reference) {
-        (Ok(d), Some(r)) => assert!(eq_datetime(d, r), "fields differ"),
-        (Err(_), None) => {}
+        (Ok(d), Some(r)) => {
+            assert!(eq_datetime(d, r), "fields differ");
+            true
+        }
+        (Err(_), None) => false,
         (Ok(_), None) => panic!("standalone parser accepts what the grammar rejects"),
         (Err(_), Some(_)) => panic!("standalone parser rejects what the grammar accepts"),
     }
@@ -43,21 +47,23 @@ fn differential(s: &[u8]) {
 
 /// all ASCII strings <= 8 bytes (every local time without fraction, every truncated date)
 #[kani::proof]
+#[kani::stub(core::str::slice_error_fail_rt, stub_slice_error_fail_rt)]
 #[kani::unwind(10)]
 pub fn c12_fromstr_a8() {
     let (buf, len) = any_ascii::<8>();
     let s = &buf[..len];
-    differential(s);
-    kani::cover!(Datetime::from_str(as_str(s)).is_ok(), "accepts a local time");
+    let ok = differential(s);
+    kani::cover!(ok, "accepts a local time");
 }
 
 /// all well-formed UTF-8 strings <= 5 bytes (multi-byte characters at every position)
 #[kani::proof]
+#[kani::stub(core::str::slice_error_fail_rt, stub_slice_error_fail_rt)]
 #[kani::unwind(7)]
 pub fn c12_fromstr_u5() {
     let (buf, len) = any_utf8::<5>();
     let s = &buf[..len];
-    differential(s);
+    let ok = differential(s);
     kani::cover!(len == 5 && buf[2] >= 0x80, "non-ASCII at byte 2");
 }
 
@@ -79,6 +85,7 @@ fn any_ascii_byte() -> u8 {
 
 /// local date `dddd-dd-dd` (+ optional free ASCII byte): every year/month/day incl. leap years
 #[kani::proof]
+#[kani::stub(core::str::slice_error_fail_rt, stub_slice_error_fail_rt)]
 #[kani::unwind(13)]
 pub fn c12_fromstr_shape_date() {
     let mut buf = [0u8; 11];
@@ -90,39 +97,18 @@ pub fn c12_fromstr_shape_date() {
     buf[10] = any_ascii_byte();
     let len: usize = if kani::any() { 10 } else { 11 };
     let s = &buf[..len];
-    differential(s);
-    kani::cover!(len == 10 && Datetime::from_str(as_str(s)).is_ok() && buf[5] == b'0' && buf[6] == b'2' && buf[8] == b'2' && buf[9] == b'9', "accepts a 29 February");
-    kani::cover!(len == 10 && Datetime::from_str(as_str(s)).is_err(), "rejects an impossible date");
+    let ok = differential(s);
+    kani::cover!(len == 10 && ok && buf[5] == b'0' && buf[6] == b'2' && buf[8] == b'2' && buf[9] == b'9', "accepts a 29 February");
+    kani::cover!(len == 10 && !ok, "rejects an impossible date");
 }
 
-/// local time `dd:dd:dd` + `.` + k digits (k <= 10 symbolic) + optional free ASCII byte
-#[kani::proof]
-#[kani::unwind(22)]
-pub fn c12_fromstr_shape_time_frac() {
-    let mut buf = [0u8; 20];
-    put_digits(&mut buf, 0, 2);
-    buf[2] = b':';
-    put_digits(&mut buf, 3, 2);
-    buf[5] = b':';
-    put_digits(&mut buf, 6, 2);
-    buf[8] = b'.';
-    put_digits(&mut buf, 9, 10);
-    let k: usize = kani::any();
-    kani::assume(k <= 10);
-    let mut len = 9 + k;
-    if kani::any() {
-        buf[len] = any_ascii_byte();
-        len += 1;
-    }
-    let s = &buf[..len];
-    differential(s);
-    kani::cover!(k == 10 && Datetime::from_str(as_str(s)).is_ok(), "accepts 10 fractional digits");
-    kani::cover!(Datetime::from_str(as_str(s)).is_err(), "rejects");
-}
+// (a single harness with a symbolic number k <= 10 of fractional digits does not finish in 1500 s;
+// see the fixed-k harnesses `c12_fromstr_time_frac*` below)
 
 /// offset date-time `dddd-dd-dd D dd:dd:dd` followed by nothing, one free byte, or
 /// `F dd G dd` (F, G free ASCII bytes): delimiter, `Z`/`z`, sign, offset ranges
 #[kani::proof]
+#[kani::stub(core::str::slice_error_fail_rt, stub_slice_error_fail_rt)]
 #[kani::unwind(27)]
 pub fn c12_fromstr_shape_datetime_offset() {
     let mut buf = [0u8; 25];
@@ -148,8 +134,7 @@ pub fn c12_fromstr_shape_datetime_offset() {
         _ => 25,
     };
     let s = &buf[..len];
-    differential(s);
-    let ok = Datetime::from_str(as_str(s)).is_ok();
+    let ok = differential(s);
     kani::cover!(ok && len == 25 && buf[19] == b'-', "accepts a negative numeric offset");
     kani::cover!(ok && len == 20 && buf[10] == b' ', "accepts a space delimiter and Z");
     kani::cover!(!ok && len == 25 && buf[19] == b'+' && buf[22] == b':', "rejects an out-of-range offset or field");
@@ -158,6 +143,7 @@ pub fn c12_fromstr_shape_datetime_offset() {
 /// full form `dddd-dd-ddTdd:dd:dd.ddd+dd:dd` with exactly one punctuation position replaced by a
 /// free ASCII byte (symbolic choice of the position)
 #[kani::proof]
+#[kani::stub(core::str::slice_error_fail_rt, stub_slice_error_fail_rt)]
 #[kani::unwind(31)]
 pub fn c12_fromstr_shape_full_one_free() {
     let mut buf = [0u8; 29];
@@ -183,8 +169,93 @@ pub fn c12_fromstr_shape_full_one_free() {
     kani::assume(which < 8);
     buf[PUNCT[which]] = any_ascii_byte();
     let s = &buf[..];
-    differential(s);
-    let ok = Datetime::from_str(as_str(s)).is_ok();
+    let ok = differential(s);
     kani::cover!(ok, "accepts");
     kani::cover!(!ok && which == 5, "rejects with the fraction point replaced");
 }
+
+/// February of every year: `dddd-02-dd` (the leap-year rule, all 10^4 years x all 100 day texts)
+#[kani::proof]
+#[kani::stub(core::str::slice_error_fail_rt, stub_slice_error_fail_rt)]
+#[kani::unwind(12)]
+pub fn c12_fromstr_shape_feb() {
+    let mut buf = [0u8; 10];
+    put_digits(&mut buf, 0, 4);
+    buf[4] = b'-';
+    buf[5] = b'0';
+    buf[6] = b'2';
+    buf[7] = b'-';
+    put_digits(&mut buf, 8, 2);
+    let s = &buf[..];
+    let ok = differential(s);
+    kani::cover!(ok && buf[8] == b'2' && buf[9] == b'9', "accepts a 29 February");
+    kani::cover!(!ok && buf[8] == b'2' && buf[9] == b'9', "rejects a 29 February");
+}
+
+macro_rules! time_frac_fixed {
+    ($harness:ident, $k:expr) => {
+        /// local time `dd:dd:dd.` + exactly $k symbolic digits (concrete length)
+        #[kani::proof]
+        #[kani::stub(core::str::slice_error_fail_rt, stub_slice_error_fail_rt)]
+        #[kani::unwind(22)]
+        pub fn $harness() {
+            let mut buf = [0u8; 9 + $k];
+            put_digits(&mut buf, 0, 2);
+            buf[2] = b':';
+            put_digits(&mut buf, 3, 2);
+            buf[5] = b':';
+            put_digits(&mut buf, 6, 2);
+            buf[8] = b'.';
+            put_digits(&mut buf, 9, $k);
+            let ok = differential(&buf[..]);
+            kani::cover!(ok, "accepts");
+            kani::cover!(!ok, "rejects an out-of-range field");
+        }
+    };
+}
+time_frac_fixed!(c12_fromstr_time_frac1, 1);
+time_frac_fixed!(c12_fromstr_time_frac4, 4);
+time_frac_fixed!(c12_fromstr_time_frac9, 9);
+time_frac_fixed!(c12_fromstr_time_frac10, 10);
+
+/// all ASCII strings <= 10 bytes (every local date and every local time without fraction)
+#[kani::proof]
+#[kani::stub(core::str::slice_error_fail_rt, stub_slice_error_fail_rt)]
+#[kani::unwind(12)]
+pub fn c12_fromstr_a10() {
+    let (buf, len) = any_ascii::<10>();
+    let s = &buf[..len];
+    let ok = differential(s);
+    kani::cover!(ok && len == 10, "accepts a local date");
+    kani::cover!(ok && len == 8, "accepts a local time");
+}
+
+/// all well-formed UTF-8 strings <= 7 bytes
+#[kani::proof]
+#[kani::stub(core::str::slice_error_fail_rt, stub_slice_error_fail_rt)]
+#[kani::unwind(9)]
+pub fn c12_fromstr_u7() {
+    let (buf, len) = any_utf8::<7>();
+    let s = &buf[..len];
+    let _ok = differential(s);
+    kani::cover!(len == 7 && buf[2] >= 0x80, "non-ASCII at byte 2");
+}
+
+macro_rules! fromstr_ascii {
+    ($harness:ident, $n:expr, $unwind:expr) => {
+        /// all ASCII strings <= $n bytes
+        #[kani::proof]
+        #[kani::stub(core::str::slice_error_fail_rt, stub_slice_error_fail_rt)]
+        #[kani::unwind($unwind)]
+        pub fn $harness() {
+            let (buf, len) = any_ascii::<$n>();
+            let s = &buf[..len];
+            let ok = differential(s);
+            kani::cover!(ok && len == $n, "accepts a string of maximal length");
+            kani::cover!(!ok && len == $n, "rejects a string of maximal length");
+        }
+    };
+}
+fromstr_ascii!(c12_fromstr_a14, 14, 16);
+fromstr_ascii!(c12_fromstr_a19, 19, 21);
+fromstr_ascii!(c12_fromstr_a25, 25, 27);
